@@ -60,7 +60,11 @@ func c19Completeness(l *loaded) ([]string, int) {
 	e := exec.New(l.World, s, exec.Config{Unwind: 5000})
 	out := e.RunPath(fn, nil, nil)
 	if out.Kind != "ok" {
-		return []string{"registry listing failed: " + out.Kind + " " + out.Detail}, 0
+		if out.Kind == "panic" || out.Kind == "assert" {
+			return []string{"registry listing failed: " + out.Kind + " " + out.Detail}, 0
+		}
+		// the engine could not execute the registry code of this tree: that decides nothing
+		return []string{"INCONCLUSIVE: registry listing could not be executed: " + out.Kind + " " + out.Detail}, 0
 	}
 	inReg := map[string]string{}
 	for _, o := range out.Obs {
